@@ -31,6 +31,7 @@
 #include <memory>
 #include <optional>
 #include <sstream>
+#include <stdexcept>
 #include <string>
 #include <utility>
 #include <vector>
@@ -297,6 +298,22 @@ inline SPN mk_angle(LD start, LD interior)
 //---------------------------------------------------------------------------//
 // PUBLIC TYPES
 //---------------------------------------------------------------------------//
+// Known-finding input classes (bits)
+enum : unsigned
+{
+    KF10 = 1,  // skewed parallelepiped
+    KF11 = 2,  // ellipsoid: un-normalised quadric vs absolute thresholds
+    KF12 = 4,  // GenPrism face with a twist below sqrt(2 rel) made planar
+    KF13 = 8  // two rotated cylinders merged: coefficient-space soft equality
+};
+
+// Thrown by generate() when the drawn model falls in a known-finding class
+// that the Limits exclude (counted by the harness as a clean rejection)
+struct Excluded : std::runtime_error
+{
+    using std::runtime_error::runtime_error;
+};
+
 struct Limits
 {
     int max_depth = 2;  // proto nesting below the global unit
@@ -308,6 +325,13 @@ struct Limits
     // of two squared radii) fall below tol.rel.  (If all three do, the build
     // overflows the stack: that sub-class is never generated.)
     bool allow_small_ellipsoid = false;
+    // F12 class: GenPrism side face whose twist is small enough for the
+    // builder to emit a plane although the face is measurably non-planar
+    bool allow_flattened_twist = false;
+    // F13 class: near-coincident clone of a generally rotated cylinder whose
+    // radius differs by >= 2 tol but whose quadric's constant term differs by
+    // less than the (absolute) tolerance, so the two surfaces are merged
+    bool allow_merged_quadric_clone = false;
     bool allow_near_coincident = true;  // planted faces at k*tol offsets
     bool allow_nondefault_tol = true;
     bool allow_improper = true;  // reflections
@@ -332,8 +356,7 @@ struct Made
     bool bounded = false;
     P3 c{0, 0, 0};
     LD r = 0;
-    bool f10 = false;  // contains a skewed parallelepiped
-    bool f11 = false;  // contains a small-coefficient ellipsoid
+    unsigned known = 0;  // KF* bits: member of a known-finding input class
     bool has_ell = false;  // contains a non-spherical ellipsoid
     // recipe of a simple primitive (for planting near-coincident clones)
     int kind = -1;
@@ -353,8 +376,7 @@ struct Entry
     SPN orc;  // in the unit frame
     int daughter = -1;  // index into daughters, or -1 for a material
     std::string label;  // volume name (materials)
-    bool f10 = false;
-    bool f11 = false;
+    unsigned known = 0;
     P3 c{0, 0, 0};  // bounding ball (unit frame)
     LD r = 0;
 };
@@ -364,8 +386,7 @@ struct UnitG
     SPN boundary;  // unit frame
     P3 bc{0, 0, 0};
     LD br = 0;  // ball containing the boundary object
-    bool boundary_f10 = false;
-    bool boundary_f11 = false;
+    unsigned boundary_known = 0;
     bool boundary_has_ell = false;
     std::vector<EllRec> boundary_ells;
     std::vector<Entry> entries;  // first-match order
@@ -374,8 +395,7 @@ struct UnitG
     bool rest_is_background = false;
     bool explicit_boundary = false;
     LD extent = 0;  // length scale of the unit frame (for tol)
-    bool any_f10 = false;  // a skewed parallelepiped somewhere in THIS unit
-    bool any_f11 = false;  // a small-coefficient ellipsoid in THIS unit
+    unsigned any_known = 0;  // KF* bits of everything in THIS unit
     std::shared_ptr<oi::UnitProto const> proto;
 };
 
@@ -387,7 +407,7 @@ struct Features
         n_daughters = 0, n_daughter_rot = 0, n_reuse = 0, n_regions = 0,
         depth = 0, n_skew = 0, n_twisted = 0, n_degenerate = 0,
         n_oriented_prism = 0, n_explicit = 0, n_background = 0,
-        n_tinyrot = 0, n_small_ell = 0, n_excluded_f11 = 0;
+        n_merged_gq = 0, n_tinyrot = 0, n_small_ell = 0, n_excluded_f11 = 0, n_flat_twist = 0;
     bool nondefault_tol = false;
 };
 
@@ -409,8 +429,7 @@ struct Expect
     std::string volume_label;
     LD margin = HUGE_VALL;  // smallest |margin| met on the way
     int depth = 0;  // proto level of the leaf
-    bool f10 = false;  // a unit on the path contains a skewed parallelepiped
-    bool f11 = false;  // ... a small-coefficient ellipsoid
+    unsigned known = 0;  // KF* bits of the units on the path
 };
 
 inline double world_halfwidth(GenGeo const& g)
@@ -433,14 +452,17 @@ inline LD unit_tol(GenGeo const& g, UnitG const& u, P3 const& p)
 //---------------------------------------------------------------------------//
 // ORACLE: expected leaf volume of a global point
 //---------------------------------------------------------------------------//
+// `floor` is the largest tolerance of the enclosing levels: a daughter
+// placement is itself only defined up to the parent's tolerance (e.g. a
+// rotation by ~rel is dropped), which displaces everything inside it.
 inline void walk(GenGeo const& g, UnitG const& u, P3 const& p, bool top,
-                 int depth, Expect& e)
+                 int depth, Expect& e, LD floor = 0)
 {
-    LD mex = 4 * unit_tol(g, u, p);
+    LD tol_here = std::max(unit_tol(g, u, p), floor);
+    LD mex = 4 * tol_here;
     e.unit_label = u.label;
     e.depth = depth;
-    e.f10 = e.f10 || u.any_f10;
-    e.f11 = e.f11 || u.any_f11;
+    e.known |= u.any_known;
     if (top)
     {
         LD mb = margin(*u.boundary, p);
@@ -471,7 +493,8 @@ inline void walk(GenGeo const& g, UnitG const& u, P3 const& p, bool top,
             if (en.daughter >= 0)
             {
                 auto const& pl = u.daughters[en.daughter];
-                return walk(g, *pl.unit, down(pl.x, p), false, depth + 1, e);
+                return walk(g, *pl.unit, down(pl.x, p), false, depth + 1, e,
+                            tol_here);
             }
             e.volume_label = en.label;
             return;
@@ -485,6 +508,42 @@ inline Expect expected(GenGeo const& g, LD x, LD y, LD z)
     Expect e;
     walk(g, *g.global, P3{x, y, z}, true, 0, e);
     return e;
+}
+
+// Human-readable trace of the oracle's descent (for failure messages)
+inline void explain_walk(GenGeo const& g, UnitG const& u, P3 const& p, bool top,
+                         std::ostringstream& os, LD floor = 0)
+{
+    LD tol = std::max(unit_tol(g, u, p), floor);
+    os.precision(12);
+    os << " [" << u.label << " local=(" << double(p.x) << "," << double(p.y)
+       << "," << double(p.z) << ") tol=" << double(tol);
+    if (top)
+        os << " bnd=" << double(margin(*u.boundary, p) / tol);
+    for (size_t i = 0; i < u.entries.size(); ++i)
+    {
+        auto const& en = u.entries[i];
+        LD m = margin(*en.orc, p);
+        os << " " << (en.daughter >= 0 ? "d" : "m") << i << "=" << double(m / tol);
+        if (fabsl(m) <= 4 * tol)
+            break;
+        if (m > 0)
+        {
+            if (en.daughter >= 0)
+            {
+                auto const& pl = u.daughters[en.daughter];
+                explain_walk(g, *pl.unit, down(pl.x, p), false, os, tol);
+            }
+            break;
+        }
+    }
+    os << "]";
+}
+inline std::string explain(GenGeo const& g, LD x, LD y, LD z)
+{
+    std::ostringstream os;
+    explain_walk(g, *g.global, P3{x, y, z}, true, os);
+    return os.str();
 }
 
 //---------------------------------------------------------------------------//
